@@ -295,6 +295,57 @@ func (d *dataRun) xferCase(c DataCase, out map[string]interface{}) {
 		}
 		gb, _ := got.Body().(*[]byte)
 		out["equal"] = gb != nil && bytes.Equal(*gb, pl) && bytes.Equal(got.XferPipe().IDs(), ids)
+	case "wireunregplain":
+		// pack with the registered filters of the pipe only, then name the whole pipe in the frame header
+		// (raw and json framing: 4 bytes size, 1 byte pipe length, pipe ids, payload)
+		pf := ProtoFuncByName(proto)
+		var real []byte
+		for _, id := range ids {
+			if id != 0xEE {
+				real = append(real, id)
+			}
+		}
+		m := socket.NewMessage()
+		m.SetSeq(7)
+		m.SetMtype(erpc.TypeCall)
+		m.SetServiceMethod("/a/b")
+		m.SetBodyCodec('j')
+		m.SetBody(append([]byte(nil), pl...))
+		if err := m.XferPipe().Append(real...); err != nil {
+			out["err"] = ""
+			out["note"] = "setup: " + err.Error()
+			return
+		}
+		var w bytes.Buffer
+		if err := pf(&rwBuf{r: bytes.NewReader(nil), w: &w}).Pack(m); err != nil {
+			out["err"] = ""
+			out["note"] = "setup pack: " + err.Error()
+			return
+		}
+		f := w.Bytes()
+		if len(f) < 5+len(real) || int(f[4]) != len(real) {
+			out["err"] = ""
+			out["note"] = "unexpected framing"
+			return
+		}
+		payload := f[5+len(real):]
+		size := uint32(len(f) - len(real) + len(ids))
+		if proto == "json" {
+			size -= 4 // the json protocol's size field does not count itself
+		}
+		frame := []byte{byte(size >> 24), byte(size >> 16), byte(size >> 8), byte(size), byte(len(ids))}
+		frame = append(append(frame, ids...), payload...)
+		got := socket.NewMessage(socket.WithNewBody(func(socket.Header) interface{} { return new([]byte) }))
+		err := pf(&rwBuf{r: &chunkReader{b: frame, sizes: []int{64}}, w: &bytes.Buffer{}}).Unpack(got)
+		if err != nil {
+			out["err"] = "unpack: " + err.Error()
+			return
+		}
+		out["err"] = ""
+		gb, _ := got.Body().(*[]byte)
+		out["accepted"] = true
+		out["learned"] = string(got.XferPipe().IDs())
+		out["equal"] = gb != nil && bytes.Equal(*gb, pl)
 	case "replypipe":
 		d.replyPipe(c, ids, pl, out)
 	}
